@@ -408,6 +408,10 @@ class Client(base_client.BaseClient):
         callback = None
         try:
             callback = self.callbacks[namespace][id]
+            if not callable(callback):
+                # key 0 holds the ack id generator, it is not a callback
+                callback = None
+                raise KeyError(id)
         except KeyError:
             # if we get an unknown callback we just ignore it
             self.logger.warning('Unknown callback received, ignoring.')
